@@ -173,6 +173,9 @@ pub struct Opts {
     /// decode data and compare size + CRC for entries up to this many (uncompressed) bytes
     pub decode_limit: u64,
     pub password: Option<Vec<u8>>,
+    /// require a central ZIP64 block to hold exactly the slots of the saturated fields
+    /// (APPNOTE 4.5.3 "MUST only appear if ..."); common readers tolerate spare slots
+    pub zip64_exact: bool,
 }
 impl Opts {
     /// What the crate's own writer must satisfy.
@@ -185,6 +188,7 @@ impl Opts {
             cd_contiguous_to_end: true,
             decode_limit: 64 << 20,
             password: None,
+            zip64_exact: true,
         }
     }
     /// For foreign archives: structure only.
@@ -197,6 +201,7 @@ impl Opts {
             cd_contiguous_to_end: false,
             decode_limit: 64 << 20,
             password: None,
+            zip64_exact: false,
         }
     }
 }
@@ -477,7 +482,7 @@ pub fn parse<B: Blob + ?Sized>(b: &B, opts: &Opts) -> Result<Parsed, VErr> {
                     return Err(miss("disk"));
                 }
             }
-            if o != body.len() {
+            if o != body.len() && opts.zip64_exact {
                 return verr(
                     "zip64-extra",
                     format!("record {i}: ZIP64 block has {} bytes, the saturated fields account for {o}", body.len()),
